@@ -14,7 +14,6 @@ type OAReport struct {
 }
 
 var reStatus = regexp.MustCompile(`^[1-5][0-9][0-9]$|^[1-5]XX$`)
-var rePathTemplate = regexp.MustCompile(`\{([^{}]*)\}`)
 
 // ValidateOpenAPI checks the export against the catalog it was made from.
 func ValidateOpenAPI(oa interface{}, catalog interface{}) OAReport {
@@ -144,9 +143,10 @@ func ValidateOpenAPI(oa interface{}, catalog interface{}) OAReport {
 			return m
 		}
 		itemDecl := declared(pi.Arr("parameters"))
-		var tmpl []string
-		for _, m := range rePathTemplate.FindAllStringSubmatch(pk, -1) {
-			tmpl = append(tmpl, m[1])
+		tmpl, ambiguous := PathParams(pk)
+		if ambiguous {
+			rep.Counts["ambiguous_path_templates_skipped"]++
+			tmpl = nil
 		}
 		nops := 0
 		for _, me := range methods {
